@@ -400,7 +400,7 @@ def apply_ops(unit, fn_text, log):
                         continue
                     break
                 recv_start = toks[k + 1][1]
-                recv = s[recv_start:st]
+                recv = s[recv_start:toks[idx][2]]  # up to the receiver's last token: a comment between it and `.m(` is dropped
                 if a['find'].rstrip().endswith('('):
                     ob = en - 1
                     cb = rustlex.match_close(masked, ob)
